@@ -8,7 +8,7 @@
 #include <cstdint>
 #include <string>
 
-namespace gm2calc { class MSSMNoFV_onshell; class THDM; }
+namespace gm2calc { class MSSMNoFV_onshell; class THDM; class SM; }
 
 namespace ops {
 
@@ -63,6 +63,18 @@ uint64_t getters_thdm(const gm2calc::THDM&);
 
 /// SM layer and running masses: pure functions of the arguments
 double sm_ops(double lambda, double A, double rho, double eta, double mz, double alpha_s);
+
+/// SM objects as such: a seeded history of setters and derived getters on a private SM object; returns the hash of all
+/// getters at the end and reports whether a FRESH object given the same final parameter values answers identically
+/// (a getter may not depend on which getters and setters were called before)
+uint64_t sm_history(uint64_t seed, bool* same_as_fresh);
+/// an SM object shared between tasks (built by the main thread, no derived getter called on it before the tasks start)
+gm2calc::SM* make_shared_sm(uint64_t seed);
+void destroy(gm2calc::SM*);
+uint64_t sm_getters(const gm2calc::SM&);   ///< all getters, raw and derived
+size_t sizeof_sm();
+/// THDM construction from a given (possibly shared) SM object
+gm2calc::THDM* make_thdm_with_sm(const ThdmPoint&, const gm2calc::SM&);
 
 /// the caller changes a model it owns (one parameter, then recalculation); returns the getters hash
 uint64_t mutate_mssm(gm2calc::MSSMNoFV_onshell&, int what, double u);
